@@ -562,9 +562,9 @@ func TestCheck(t *testing.T) {
 		}
 		return
 	}
-	maxDepth := 3
+	maxDepth := 4
 	if r.Thorough() {
-		maxDepth = 4
+		maxDepth = 5
 	}
 	idx := 0
 	var sampleTrees []string
